@@ -95,6 +95,8 @@ type modEntry struct {
 
 // FG generates the verification conditions of one function.
 type FG struct {
+	loopHavoc map[int]map[string]bool // header block -> families havocked at the loop head
+	inHavoc   bool
 	loopEntrySt map[int]*State // memory state at the entry of each loop (by header block)
 	snapshotCells int // interior addresses stored to memory, modelled by snapshot cells
 	merges map[int]*mergeInfo
@@ -364,13 +366,29 @@ func (fg *FG) typedHeap(name, family, alloc string) {
 	fg.decls = append(fg.decls, ax)
 }
 
+// guardLoopWrite: every heap family written inside a loop must have been given a fresh version at
+// the loop head; otherwise the loop invariant would be checked against a state in which earlier
+// iterations never wrote (soundness guard for the static computation of the havoc set).
+func (fg *FG) guardLoopWrite(family string) {
+	if fg.inHavoc || fg.loopHavoc == nil || family == "$alloc" {
+		return
+	}
+	for h, fams := range fg.loopHavoc {
+		if fg.loopBlocks[h][fg.curBlock] && !fams[family] {
+			fg.fail("internal: loop %d writes heap family %s that was not havocked at its head (soundness guard)", fg.loopOrd[h], family)
+		}
+	}
+}
+
 func (fg *FG) setHeap(st *State, family, term string) {
+	fg.guardLoopWrite(family)
 	srt := fg.heapSort[family]
 	n := fg.define("H."+family, srt, term)
 	st.heaps[family] = n
 }
 
 func (fg *FG) havocHeap(st *State, family string) string {
+	fg.guardLoopWrite(family)
 	srt := fg.heapSort[family]
 	if srt == "" {
 		fg.fail("havoc of undeclared heap %s", family)
